@@ -1,2 +1,5 @@
 import DcVerif.Props.C19
 import DcVerif.Props.C07
+import DcVerif.Props.C04
+import DcVerif.Props.C13
+import DcVerif.Props.C14
